@@ -188,4 +188,3 @@ func c13(args []string) int {
 		},
 		fmt.Sprintf("every write/sync history over the layer alphabet up to the layer depth, for a covering set of (MinCheckpointPageN, TruncatePageN, CheckpointInterval, MaxSyncWALBytes, page size) configurations (quick: pairwise cover; thorough: full product), each followed by %d idle syncs; oracle after every successful sync with nothing pinned: valid frames of the live WAL generation < lowest threshold + 1; idle phase: last 4 syncs create no file, total <= 6", c13IdleSyncs))
 }
-
